@@ -15,9 +15,24 @@ def run(ck):
     env = small_env(ck)
     big = ck.tier == "thorough"
     r = ck.rng
-    nhist = 60 if big else 14
+    nhist = 80 if big else 24
     lines = []
     hist_ops = {}
+    # valid multi-chunk files for library-level decrypt/verify inside histories (one per history, fixed T per history so that
+    # anything cached between runs for "the same configuration" is exercised)
+    pre_lines, pre_meta = [], {}
+    for h in range(nhist):
+        Th = r.choice([1, 2, 3, 4])
+        kh = rnd_key(r)
+        ph = rnd_bytes(r, CH * r.randrange(2, 6) - r.randrange(0, 17))
+        pre_meta[h] = (Th, kh, ph, r.randrange(5), r.randrange(3))
+        pre_lines.append("p%d enc %d %d %d %s %s %s" % (h, pre_meta[h][3], pre_meta[h][4], Th, kh.hex(), rnd_seed(r).hex(), wv.hexs(ph)))
+    pre = wv.run_lines([exe], pre_lines, env=env)
+    valid = {}
+    for h in range(nhist):
+        head, _ = split_impl(pre.get("p%d" % h, ""))
+        if head.startswith("OK "):
+            valid[h] = head.split()[1]
     for h in range(nhist):
         dirs = {}
         for which in ("hist", "alone"):
@@ -25,7 +40,7 @@ def run(ck):
             os.makedirs(d)
             dirs[which] = d
         files = {}
-        nops = r.randrange(3, 9)
+        nops = r.randrange(4, 11)
         ops = []       # (template fields with {D} for the directory, kind)
         # material: plaintext files and one valid encrypted file per history
         key = rnd_bytes(r, 16)
@@ -33,8 +48,10 @@ def run(ck):
         for d in dirs.values():
             open(os.path.join(d, "p.bin"), "wb").write(plain)
         for i in range(nops):
-            k = r.randrange(12)
+            k = r.randrange(15)
             cm, hm, T = r.randrange(5), r.randrange(3), r.choice([1, 2, 3, 4, 5, 16])
+            if h in valid and r.random() < 0.6:
+                T = pre_meta[h][0]
             if k == 0:
                 ops.append((["enc", str(cm), str(hm), str(T), key.hex(), rnd_seed(r).hex(), wv.hexs(rnd_bytes(r, r.choice([0, 10, 64, 150])))], "api-enc"))
             elif k == 1:
@@ -58,8 +75,12 @@ def run(ck):
                 ops.append((["dec", str(T), key.hex(), wv.hexs(rnd_bytes(r, r.choice([0, 7, 30, 74, 100])))], "api-dec-garbage"))
             elif k == 8:
                 ops.append((["ver", str(T), key.hex(), "c3a5c3a5c3a5c3a5" + rnd_bytes(r, 80).hex()], "api-ver-bad-tag"))
+            elif k in (12, 13) and h in valid:
+                ops.append((["dec", str(pre_meta[h][0]), pre_meta[h][1].hex(), valid[h]], "api-dec-valid-multichunk"))
+            elif k == 14 and h in valid:
+                ops.append((["ver", str(pre_meta[h][0]), pre_meta[h][1].hex(), valid[h]], "api-ver-valid"))
             else:
-                ops.append((["enc", str(cm), str(hm), str(T), key.hex(), rnd_seed(r).hex(), wv.hexs(rnd_bytes(r, CH * r.randrange(1, 4) - r.randrange(0, 17)))], "api-enc-multichunk"))
+                ops.append((["enc", str(cm), str(hm), str(T), key.hex(), rnd_seed(r).hex(), wv.hexs(rnd_bytes(r, r.choice([10, CH - 20, CH * r.randrange(1, 4) - r.randrange(0, 17)])))], "api-enc-multichunk"))
         hist_ops[h] = ops
         lines.append("h%d hist %s" % (h, ";".join(",".join(f.replace("{D}", dirs["hist"]) for f in fields) for fields, _ in ops)))
         for i, (fields, _) in enumerate(ops):
